@@ -84,8 +84,12 @@ def _gen_keyed(rng, tier, g):
     for i in range(rng.randint(1, 3)):
         rows = [[rng.randint(1, 7), 'v%d-%d' % (i, j)]
                 for j in range(rng.randint(0, 4))]
-        loads.append([rng.choice(['todb', 'appenddb']), rng.choice(HANDLES),
-                      rows])
+        op, handle = rng.choice(['todb', 'appenddb']), rng.choice(HANDLES)
+        if rng.random() < 0.15:
+            # (appenddb only: todb through such a factory deletes on one
+            # connection and inserts on another, which no database allows)
+            op, handle = 'appenddb', 'mkcurs-own'
+        loads.append([op, handle, rows])
     return {'prop': PROP, 'machine': 'keyed',
             'constraint': rng.choice(['PRIMARY KEY', 'UNIQUE',
                                       'PRIMARY KEY']),
@@ -148,6 +152,7 @@ def _gen_case(rng, tier, g):
                                   'uncommitted-pending']),
             'pipeline': rng.random() < 0.3,
             'keep_exc': rng.random() < 0.3,
+            'in_except': rng.random() < 0.2,
             'schema': rng.choice([None, None, 'main']),
             # identifier quoting: names with a space, reserved words
             'tname': rng.choice(['t', 't', 'my table', 'select', 'Order',
@@ -463,7 +468,16 @@ def _one(e, case, path, op, handle, commit, fault, log):
         raised = None
         kept = []
         try:
-            _load(e, op, source, dbo, commit)
+            if case.get('in_except'):
+                # the load is made from an except clause that is handling an
+                # unrelated exception (the fallback table is written there):
+                # what sys.exc_info() says is the caller's business
+                try:
+                    raise LookupError('unrelated, being handled by the caller')
+                except LookupError:
+                    _load(e, op, source, dbo, commit)
+            else:
+                _load(e, op, source, dbo, commit)
         except (Exception, SimSourceAbort) as ex:
             raised = type(ex)
             msg = str(ex)
@@ -615,8 +629,14 @@ def _run_keyed(e, case, log):
             hdr = ['k', 'v'] if case['order'] == 'kv' else ['v', 'k']
             table = [hdr] + [list(r) if case['order'] == 'kv'
                              else [r[1], r[0]] for r in rows]
-            caller = None if handle == 'name' else sqlite3.connect(path)
-            dbo = _mk_dbo(handle, path, caller)
+            caller = None if handle in ('name', 'mkcurs-own') \
+                else sqlite3.connect(path)
+            if handle == 'mkcurs-own':
+                # a cursor factory that hands out a cursor on a connection
+                # of its own each time (a pool)
+                dbo = (lambda: sqlite3.connect(path).cursor())
+            else:
+                dbo = _mk_dbo(handle, path, caller)
             raised, kept = None, []
             try:
                 (e.todb if op == 'todb' else e.appenddb)(
@@ -669,6 +689,9 @@ def _run_keyed(e, case, log):
             del kept[:]
             if caller is not None:
                 caller.close()
+            # (a connection that a cursor factory opened for itself and
+            # abandoned in a failed load goes with the garbage)
+            gc.collect()
     return nloads
 
 
